@@ -1,5 +1,5 @@
 From Coq Require Import List NArith ZArith Bool.
-From Alp Require Import Base.Str Base.Types Model.Import.
+From Alp Require Import Base.Str Base.Types Model.Import Model.Watch.
 From Run Require Gen_import.
 Import ListNotations.
 Lemma t_not_file a b : Gen_import.g_not_a_file a b = a || negb b. Proof. reflexivity. Qed.
@@ -7,3 +7,9 @@ Lemma t_revive w : Gen_import.g_revive_suspect w = wants_eqb w WY. Proof. destru
 Lemma t_absolute b : Gen_import.g_vet_absolute b = b. Proof. reflexivity. Qed.
 Lemma t_marker p : Gen_import.g_vet_marker p = str_eqb p [65; 76; 80; 69; 78; 72; 79; 82; 78; 95; 78; 79; 68; 69]%N. Proof. reflexivity. Qed.
 Lemma t_recurse b : Gen_import.g_vet_recurse b = b. Proof. reflexivity. Qed.
+(* the watchdog handler *)
+Lemma t_is_dotfile p : Gen_import.g_is_dotfile (first1 (basename p)) = is_dotfile p. Proof. reflexivity. Qed.
+Lemma t_is_lock_file p : Gen_import.g_is_lock_file (lastn 5 p) (is_dotfile p) = is_lock_file p. Proof. reflexivity. Qed.
+Lemma t_on_created d p : handle (Created d p) = if Gen_import.g_on_created d (is_dotfile p) then Some p else None. Proof. reflexivity. Qed.
+Lemma t_on_moved d s q : handle (Moved d s q) = if Gen_import.g_on_moved d (is_dotfile q) then Some q else None. Proof. reflexivity. Qed.
+Lemma t_on_deleted d p : handle (Deleted d p) = if Gen_import.g_on_deleted d (is_lock_file p) then Some (unlock_target p) else None. Proof. reflexivity. Qed.
